@@ -38,6 +38,37 @@ structure Good (nf : Nat) (extra : Option Nat) (fs : FS) : Prop where
   untouched : ∀ s, s ∉ fs.dirs → fs.seg s = {}
   /-- every completed flush is served from a segment whose metadata record was built from (at least) that flush -/
   prov : ∀ f, f < nf → ∃ p ∈ metas fs, f ∈ p.2 ∧ f ∈ segVisible (fs.seg p.1)
+  /-- EVERY block a restart serves — also that of the flush in progress — is one its segment's record was built from -/
+  provAll : ∀ p ∈ metas fs, ∀ f ∈ segVisible (fs.seg p.1), f ∈ p.2
+
+/-- every block summary is covered by the reconciled record -/
+theorem segVisible_sub_reconciled {st : SegSt} {f : Nat} (h : f ∈ segVisible st) : f ∈ reconciled st := by
+  unfold segVisible at h
+  rcases List.mem_map.1 h with ⟨b, hb, rfl⟩
+  have hb' : b.1 ∈ st.bsu.map (·.1) := List.mem_map.2 ⟨b, (List.mem_filter.1 hb).1, rfl⟩
+  unfold reconciled
+  by_cases hc : st.sfm.blocks.contains b.1 = true
+  · exact List.mem_append_left _ (List.contains_iff_mem.1 hc)
+  · exact List.mem_append_right _ (List.mem_filter.2 ⟨hb', by simpa using hc⟩)
+
+/-- the records the restart holds, given the frame -/
+theorem metas_frame {sl cur fs} (F : Frame sl cur fs) :
+    metas fs = sl ++ (if cur ∈ fs.dirs ∧ (fs.seg cur).sfm.parsable = true then [(cur, reconciled (fs.seg cur))] else []) := by
+  unfold metas
+  rw [F.segmeta_eq, sfmAdopted_frame F]
+  split <;> simp
+
+theorem provAll_frame {sl cur fs} (F : Frame sl cur fs) :
+    ∀ p ∈ metas fs, ∀ f ∈ segVisible (fs.seg p.1), f ∈ p.2 := by
+  intro p hp f hf
+  rw [metas_frame F] at hp
+  rcases List.mem_append.1 hp with h | h
+  · rw [segOK_visible (F.sealed_ok p h)] at hf; exact hf
+  · split at h
+    · have : p = (cur, reconciled (fs.seg cur)) := by simpa using h
+      subst this
+      exact segVisible_sub_reconciled hf
+    · cases h
 
 /-- a flush of a sealed segment: its segmeta.json line lists it and the segment serves it -/
 theorem meta_sealed {sl cur fs} (F : Frame sl cur fs) {f : Nat} (hm : f ∈ flat sl) :
@@ -57,7 +88,7 @@ theorem good_a {sl cur fs nf extra} {fls : List Nat} (F : Frame sl cur fs)
     (ids : flat sl ++ fls = List.range nf) (hl : fls = []) : Good nf extra fs := by
   have hv : visible fs = flat sl := by rw [visible_frame F, if_neg hno]; simp [flat]
   have ht : torn fs = [] := by rw [torn_frame F, if_neg hno]
-  refine ⟨?_, ht, ?_, ?_, F.suffix_ok, F.untouched, ?_⟩
+  refine ⟨?_, ht, ?_, ?_, F.suffix_ok, F.untouched, ?_, provAll_frame F⟩
   · rw [hv]; exact nodup_prefix_of_range ids
   · intro f hf
     rw [hv] at hf
@@ -82,18 +113,19 @@ theorem good_b {sl cur fs nf extra} {fls X : List Nat} (F : Frame sl cur fs)
   have hv : visible fs = flat sl ++ X := by
     rw [visible_frame F, if_pos ⟨hin, hp⟩, segOK_visible hok]; rfl
   have ht : torn fs = [] := by rw [torn_frame F, if_pos ⟨hin, hp⟩, segOK_torn hok]
-  refine ⟨?_, ht, ?_, ?_, F.suffix_ok, F.untouched, ?_⟩
+  refine ⟨?_, ht, ?_, ?_, F.suffix_ok, F.untouched, ?_, provAll_frame F⟩
   rotate_right
   · intro f hf
     have hm : f ∈ flat sl ++ fls := ids ▸ List.mem_range.2 hf
     rcases List.mem_append.1 hm with h | h
     · exact meta_sealed F h
     · rcases hY with ⟨Y, hY1, hY2⟩
-      refine ⟨(cur, Y), ?_, hY2 f h, ?_⟩
-      · unfold metas
-        rw [sfmAdopted_frame F, if_pos ⟨hin, hp⟩]
-        apply List.mem_append_right
-        simp [hY1, Sfm.blocks]
+      refine ⟨(cur, reconciled (fs.seg cur)), ?_, ?_, ?_⟩
+      · rw [metas_frame F, if_pos ⟨hin, hp⟩]
+        exact List.mem_append_right _ (List.mem_singleton.2 rfl)
+      · unfold reconciled
+        rw [hY1]
+        exact List.mem_append_left _ (hY2 f h)
       · show f ∈ segVisible (fs.seg cur)
         rw [segOK_visible hok]
         rcases hX with e | ⟨e, _⟩
